@@ -67,6 +67,9 @@ TZ_SETTINGS = [
     ["CET-1CEST,M3.5.0,M10.5.0/3", ["CET", "CEST"], [2021, 10, 31, 2, 30]],
     ["NZST-12NZDT,M9.5.0,M4.1.0/3", ["NZST", "NZDT"], [2021, 4, 4, 2, 30]],
     ["AAA11", ["AAA"], None],
+    # the same abbreviations as another setting, other offsets and rules
+    ["EST-10EDT,M10.1.0,M4.1.0/3", ["EST", "EDT"], [2021, 4, 4, 2, 30]],
+    ["CET-2CEST-4,M3.5.0,M10.5.0/3", ["CET", "CEST"], None],
 ]
 CLOCKS = [946684799.0, 946684800.0, 1709164800.0, 1e9, 1735689599.0,
           1743379200.0, 1706745600.0, 1711843200.0]
@@ -165,6 +168,9 @@ def generate(cls, rng):
         elif r < 0.20:
             ops.append(rng.choice([["tick", rng.choice([1, 3600, 86400])],
                                    ["jump", rng.choice(CLOCKS)]]))
+        elif r < 0.28 and ops and ops[-1][0] in ("fill", "zone", "fuzzy"):
+            # the same call again, immediately: same text, same answer
+            ops.append(list(ops[-1]))
         elif r < 0.50:
             ops.append(gen_fill(rng))
         elif r < 0.80:
@@ -485,7 +491,7 @@ def do_zone(env, ctx, op):
         if word in names_local:
             return False
         text = "%s %s%+d" % (base, word, h)
-        expect = ("offset", -h * 3600, None)
+        expect = ("offset", -h * 3600, None) if h else ("utc",)
         tag = "tz.gmt_plus"
     elif kind == "unknown":
         name = op[4]
